@@ -34,6 +34,9 @@ func enumerateCases(prop, tier string) []ProvCase {
 					cases = append(cases, ProvCase{Kind: "fleet", Size: n, Failure: "attach-then-over-max", K: k})
 				}
 			}
+			if n <= 21 {
+				cases = append(cases, ProvCase{Kind: "fleet", Size: n, Failure: "alternating", K: 1})
+			}
 			if n <= 41 {
 				cases = append(cases, ProvCase{Kind: "fleet", Size: n, Failure: "never-ready", Repeat: 3})
 				cases = append(cases, ProvCase{Kind: "fleet", Size: n, Failure: "attach", K: batches, Repeat: 3})
